@@ -49,19 +49,36 @@ def workdir():
 _run_id = [0]
 
 
+def fresh_workdir(tag):
+    """a private copy of the specification directory (for runs that generate modules)"""
+    src = workdir()
+    d = os.path.join(scratch(), f"spec_{tag}")
+    os.makedirs(d, exist_ok=True)
+    for f in glob.glob(os.path.join(src, "*.tla")) + glob.glob(os.path.join(src, "*.cfg")):
+        shutil.copy(f, d)
+    return d
+
+
+_lock = threading.Lock()
+
+
 def run(module, cfg, *, workers=16, on_emit=None, timeout=3600, simulate=None, depth=None,
-        env=None, deque=False, seed=None, cfg_text=None, heap="6g", extra=()):
+        env=None, deque=False, seed=None, cfg_text=None, heap="6g", extra=(), wd=None):
     """Run TLC on <module>.tla with <cfg> (a file name in spec/, or cfg_text).
     Lines printed by the spec through PrintT(ToJson(..)) -- they start with a
     double quote -- are decoded and handed to on_emit(obj)."""
-    wd = workdir()
-    _run_id[0] += 1
-    meta = os.path.join(scratch(), f"meta{_run_id[0]}")
+    wd = wd or workdir()
+    with _lock:
+        _run_id[0] += 1
+        rid = _run_id[0]
+    meta = os.path.join(scratch(), f"meta{rid}")
     if cfg_text is not None:
-        cfg = f"gen_{_run_id[0]}.cfg"
+        cfg = f"gen_{rid}.cfg"
         with open(os.path.join(wd, cfg), "w") as fh:
             fh.write(cfg_text)
-    cmd = ["java", "-XX:+UseParallelGC", f"-Xmx{heap}"]
+    cmd = ["java", "-XX:+UseSerialGC" if workers == 1 else "-XX:+UseParallelGC", f"-Xmx{heap}"]
+    if workers == 1:
+        cmd += ["-XX:ActiveProcessorCount=2", "-Xshare:auto"]
     if deque:
         cmd.append("-Dtlc2.tool.queue.IStateQueue=StateDeque")
     cmd += ["-cp", JAR, "tlc2.TLC", "-workers", str(workers), "-metadir", meta,
